@@ -197,6 +197,7 @@ static void at_exec(int idx) {
 
 /* stack contents below the caller are arbitrary: fill them with a non-zero pattern before the call (command dirtystack <bytes>) */
 static size_t dirty_bytes = 0;
+static long child_timeout = 30;           /* seconds; command childtimeout <n> */
 static void __attribute__((noinline)) dirty_stack(size_t nbytes) {
     volatile unsigned char *p = alloca(nbytes);
     for (size_t i = 0; i < nbytes; i++) p[i] = 0xA5;
@@ -371,6 +372,7 @@ static size_t run_line(size_t pc, int in_child, int *stop) {
     } else if (!strcmp(c, "writefile")) { unsigned char *a = unhex(tok[1], &n); size_t m = 0; unsigned char *b = unhex(tok[2], &m);
         int fd = open((char *) a, O_WRONLY | O_CREAT | O_TRUNC, 0644); if (fd < 0 || write(fd, b, m) < 0) opf("{\"ev\":\"error\",\"what\":\"writefile: %s\"}\n", strerror(errno)); if (fd >= 0) close(fd); free(a); free(b);
     } else if (!strcmp(c, "chmodpath")) { unsigned char *a = unhex(tok[1], &n); if (chmod((char *) a, (mode_t) strtol(tok[2], NULL, 8))) opf("{\"ev\":\"error\",\"what\":\"chmod: %s\"}\n", strerror(errno)); free(a);
+    } else if (!strcmp(c, "childtimeout")) { child_timeout = atol(tok[1]);
     } else if (!strcmp(c, "dirtystack")) { dirty_bytes = (size_t) atol(tok[1]);
     } else if (!strcmp(c, "sethostname")) { unsigned char *a = unhex(tok[1], &n); if (sethostname((char *) a, n)) opf("{\"ev\":\"error\",\"what\":\"sethostname: %s\"}\n", strerror(errno)); free(a);
     } else if (!strcmp(c, "rmdir")) { unsigned char *a = unhex(tok[1], &n); if (rmdir((char *) a)) opf("{\"ev\":\"error\",\"what\":\"rmdir: %s\"}\n", strerror(errno)); free(a);
@@ -413,11 +415,19 @@ static size_t run_line(size_t pc, int in_child, int *stop) {
             p = (pid_t) syscall(SYS_clone3, &ca, sizeof ca);
             if (p < 0) { opf("{\"ev\":\"error\",\"what\":\"clone3 set_tid %ld: %s\"}\n", (long) want[0], strerror(errno)); p = fork(); }
         } else p = fork();
-        if (p == 0) { free(l); run_from(pc + 1, 1); oflush(); _exit(0); }
-        int st = 0; waitpid(p, &st, 0);
+        if (p == 0) { prctl(PR_SET_PDEATHSIG, SIGKILL); free(l); run_from(pc + 1, 1); oflush(); _exit(0); }
+        /* watchdog: a child that does not finish within child_timeout seconds (a call that never returns) is killed, so that nothing keeps spinning */
+        int st = 0, timedout = 0; struct timespec t0, t1; clock_gettime(CLOCK_MONOTONIC, &t0);
+        for (;;) {
+            pid_t w = waitpid(p, &st, WNOHANG);
+            if (w == p || (w < 0 && errno != EINTR)) break;
+            clock_gettime(CLOCK_MONOTONIC, &t1);
+            if (t1.tv_sec - t0.tv_sec >= child_timeout) { timedout = 1; kill(p, SIGKILL); waitpid(p, &st, 0); break; }
+            struct timespec nap = { 0, (t1.tv_sec - t0.tv_sec) ? 20000000 : 1000000 }; nanosleep(&nap, NULL);
+        }
         size_t q = pc + 1; int depth = 1;
         while (q < nlines) { if (!strncmp(lines[q], "fork", 4)) depth++; if (!strncmp(lines[q], "endfork", 7)) { if (--depth == 0) break; } q++; }
-        opf("{\"ev\":\"child\",\"exited\":%d,\"status\":%d,\"signal\":%d}\n", WIFEXITED(st), WIFEXITED(st) ? WEXITSTATUS(st) : -1, WIFSIGNALED(st) ? WTERMSIG(st) : 0);
+        opf("{\"ev\":\"child\",\"exited\":%d,\"status\":%d,\"signal\":%d,\"timedout\":%d}\n", WIFEXITED(st), WIFEXITED(st) ? WEXITSTATUS(st) : -1, WIFSIGNALED(st) ? WTERMSIG(st) : 0, timedout);
         oflush(); free(l); return q + 1;
     } else if (!strcmp(c, "endfork")) { if (in_child) *stop = 1;
     } else { opf("{\"ev\":\"error\",\"what\":\"unknown command %s\"}\n", c); }
@@ -427,6 +437,7 @@ static size_t run_from(size_t pc, int in_child) { int stop = 0; while (pc < nlin
 
 int main(int argc, char **argv) {
     if (argc < 3) { fprintf(stderr, "usage: xdrv script out\n"); return 2; }
+    prctl(PR_SET_PDEATHSIG, SIGKILL);        /* a harness that gives up on us (timeout) must not leave a spinning call behind */
     sinks = mmap(NULL, 16 * sizeof *sinks, PROT_READ | PROT_WRITE, MAP_SHARED | MAP_ANONYMOUS, -1, 0);
     rc = dlsym(RTLD_DEFAULT, "rec_ctl");
     if (!rc) { fprintf(stderr, "xdrv: librec.so is not preloaded\n"); return 2; }
